@@ -29,6 +29,12 @@ OnOut(A, e) ==
                  IN [A EXCEPT !.deliv[j].answered = TRUE,
                               !.subs = Append(@, [key |-> Key(e.m), c |-> A.deliv[j].c, r |-> e.r, again |-> open = {}, amb |-> amb]),
                               !.seen = Append(@, e)]
+    \* an answer to a delivered request leaves on the requester's connection by whatever route (the node's own error answer
+    \* after the handler failed, a direct send): that request is answered
+    [] e.ev = "tx" /\ ~e.m.req /\ (\E j \in 1..Len(A.deliv) : A.deliv[j].key = Key(e.m) /\ A.deliv[j].c = e.c /\ ~A.deliv[j].answered)
+         /\ ~(\E k \in 1..Len(A.subs) : A.subs[k].key = Key(e.m) /\ A.subs[k].r = "ok") ->
+         LET j == CHOOSE y \in 1..Len(A.deliv) : A.deliv[y].key = Key(e.m) /\ A.deliv[y].c = e.c /\ ~A.deliv[y].answered
+         IN [A EXCEPT !.deliv[j].answered = TRUE, !.seen = Append(@, e)]
     [] OTHER -> [A EXCEPT !.seen = Append(@, e)]
 
 StepN(M, st) ==
@@ -47,7 +53,7 @@ StepN(M, st) ==
             /\ ~IsClosed(st.snap, s.c)
             THEN {IF s.amb THEN "accepted_answer_not_transmitted:identical_ids_in_flight_on_two_connections" ELSE "accepted_answer_not_transmitted"} ELSE {}) \cup
         (IF s.r # "ok" /\ txOf(s.key) # {} /\ Cardinality({x \in 1..Len(A.subs) : A.subs[x].key = s.key}) = 1 THEN {"answer_transmitted_despite_error"} ELSE {}) \cup
-        (IF s.r = "ok" /\ st.act.a = "submit" /\ StOf(M0.prevCst, s.c) \notin READY THEN {"answer_accepted_for_connection_not_ready"} ELSE {}) \cup
+        (IF s.r = "ok" /\ st.act.a = "submit" /\ (StOf(M0.prevCst, s.c) \notin READY \/ ~InService(M0.R, s.c)) THEN {"answer_accepted_for_connection_not_ready"} ELSE {}) \cup
         (IF s.r \notin {"ok", "NotRoutable"} /\ ~s.again THEN {"submission_failed_with_other_error"} ELSE {})
       \* concurrent submissions of one answer (schedule scenarios): whatever the order in which the callers return,
       \* at most one is accepted and at most one copy is transmitted, on the requester's connection
